@@ -1,5 +1,6 @@
 """Lospf (OSPFv2/OSPFv3 decoder sub-check: C19, C05, C01; C06 and C07 do not apply) configuration for ./check"""
 CONF = {
+    'coq_sample': 12,   # cases re-evaluated inside Coq by vm_compute against the extracted runner's output
     'interesting': ['truncated-prefix-of-valid', 'consistent-length-cut', 'packet-length-extreme', 'unknown-type', 'lsa-count-extreme', 'lsa-length-extreme',
                     'prefix-count-length-extreme', 'hello', 'db-description', 'ls-request', 'ls-update', 'ls-ack',
                     'lsa-body-11', 'lsa-body-12', 'lsa-body-13', 'lsa-body-14', 'lsa-body-15', 'lsa-body-16', 'lsa-body-17', 'lsa-body-18', 'lsa-body-19', 'lsa-body-20',
